@@ -142,6 +142,7 @@ func runC11(c *Ctx) {
 	// ---- M6 cursor ---------------------------------------------------------------------------------------------
 	c11Cursor(c)
 	c11Fresh(c)
+	c11FixedProtocols(c)
 }
 
 // onlyUnderUvarintSize: every occurrence of v inside n is an argument of varint.UvarintSize.
@@ -451,6 +452,64 @@ func c11Fresh(c *Ctx) {
 		c.Unk("C11.M8-derived-context-own-table", "metadata.(*metadataContext).WithProtocol", token.NoPos, "not found")
 	}
 	c.Floor("C11.M8-derived-context-own-table", 1)
+}
+
+// c11FixedProtocols: a protocol whose encoding is a fixed byte string accepts,
+// when decoding, exactly that byte string — the success return of its ReadFrom
+// is dominated by bytes.Equal(canonical bytes, what was read). (Comparing only
+// the leading code accepts encodings with another payload length: the decoder
+// then returns a value that re-encodes to different bytes than it consumed.)
+func c11FixedProtocols(c *Ctx) {
+	n := 0
+	for _, f := range c.Funcs(metaPkg) {
+		if f.SSA.Name() != "MarshalBinary" || f.SSA.Signature.Recv() == nil {
+			continue
+		}
+		var g *X
+		fixed := true
+		for _, b := range f.SSA.Blocks {
+			if ret, ok := b.Instrs[len(b.Instrs)-1].(*ssa.Return); ok && len(ret.Results) == 2 {
+				v := strip(c.RetX(ret, 0))
+				if v.Op != "global" && !(v.Op == "deref" && len(v.Args) == 1 && v.Args[0].Op == "global") {
+					fixed = false
+				} else {
+					g = v
+				}
+			}
+		}
+		if !fixed || g == nil {
+			continue
+		}
+		recvT := deref(f.SSA.Signature.Recv().Type())
+		named, ok := recvT.(*types.Named)
+		if !ok {
+			continue
+		}
+		rf := c.Func(metaPkg, canonType(named.Obj())+".ReadFrom")
+		if rf == nil {
+			continue
+		}
+		n++
+		gname := g.String()
+		okAll := true
+		for _, b := range rf.SSA.Blocks {
+			ret, isRet := b.Instrs[len(b.Instrs)-1].(*ssa.Return)
+			if !isRet || len(ret.Results) != 2 || c.RetX(ret, 1).Op != "nil" {
+				continue
+			}
+			eq := false
+			for _, fct := range c.FactsAt(b) {
+				if fct.Val && fct.Cond.Op == "call" && nameMatches(fct.Cond.Name, "bytes.Equal") && fct.Cond.Contains(func(y *X) bool { return y.Op == "global" && strings.Contains(gname, y.Name) }) {
+					eq = true
+				}
+			}
+			if !eq {
+				okAll = false
+			}
+		}
+		c.Check(okAll, "C11.M9-fixed-encoding-decoded-exactly", rf.Name+" › accepts exactly its own encoding", rf.SSA.Pos(), "success dominated by bytes.Equal("+gname+", bytes read)", "the decoder of a fixed-encoding protocol succeeds without having compared all the bytes it consumed with its canonical encoding ("+gname+"): input with a different payload-length byte is accepted and re-encodes to other bytes than were consumed")
+	}
+	c.Floor("C11.M9-fixed-encoding-decoded-exactly", 2)
 }
 
 func c11Cursor(c *Ctx) {
